@@ -103,5 +103,10 @@ impl Hash {
 pub trait HashDigest: Sized { spec fn hd_absorbed(&self) -> Seq<u8>; spec fn hd_reversed(&self) -> bool; }
 impl HashDigest for Sha256r { open spec fn hd_absorbed(&self) -> Seq<u8> { self.engine.absorbed@ } open spec fn hd_reversed(&self) -> bool { self.reverse } }
 //@fn get_hash_digest
+//@enum PBKDF2Hashes @ src/kdf/pbkdf2_kdf.rs clone copy
+//@struct KDF @ src/kdf/mod.rs clone
+impl KDF {
+//@fn KDF::pbkdf2_impl
+}
 } // verus!
 fn main() {}
